@@ -162,7 +162,10 @@ impl SimWorld {
         simchrono::sim_now_us()
     }
     fn advance(&mut self, dt: i64) {
-        simchrono::sim_set_now_us(simchrono::sim_now_us() + dt);
+        // the simulated clock stays inside what chrono can represent (about the year 128 000): a program that
+        // sleeps for geological times is judged on what it does, not on an overflow inside the simulator
+        const MAX_CLOCK_US: i64 = 4_000_000_000_000_000_000;
+        simchrono::sim_set_now_us(simchrono::sim_now_us().saturating_add(dt).min(MAX_CLOCK_US));
     }
     fn tick(&mut self, what: &str) {
         self.calls += 1;
